@@ -21,6 +21,17 @@ CHECKS = {
     "C06": ("every generated valid instance is solved in a child process in the release and the overflow-checked "
             "profile under a watchdog; TLC accepts a trace only if it ends with status ok (no action for panic/timeout)", "6-C06"),
     "C07": ("Output.tla!CoverageOK + lower bound recomputed in TLA+; unserved demand monotone over stage snapshots", "6-C07"),
+    "C09": ("SchedView.tla!CachesOK (every cached figure of tours, schedule, transitions, depots against the from-scratch "
+            "TLA+ definitions) evaluated by TLC on every state of adaptive random walks over all 12 public modifications, "
+            "on every pipeline stage snapshot, and (tour level) on the exhaustive Gen_Tour cases", "6-C09"),
+    "C10": ("SchedView.tla!SchedInv (tours, formations, limits, sorted listings, cycle partition + successor probe) evaluated "
+            "by TLC on every state of the walks and every pipeline stage snapshot", "6-C10"),
+    "C12": ("Gen_Tour.tla: TLC enumerates ALL tiny networks (<=2 quick / <=3 thorough activities, ties, zero shunting, forbidden "
+            "and asymmetric dead-heads), checks the laws of the reference insert/remove semantics and emits every valid tour, "
+            "path and segment; rsv tour executes them on the real Tour code; TraceTour.tla validates every result", "6-C12"),
+    "C13": ("Schedule.tla: reference semantics Pre_X / Res_X of each public modification (whole next abstract state, hence frame "
+            "conditions; relational for heuristics); TraceSched.tla checks every observed (pre, call, post) triple of the walks, "
+            "refusals, returned ids, untouched input value", "6-C13"),
     "C16": ("stage snapshots (cfg hooks) related by TracePipe.tla!P_C16_*: start=improve(mcf), transopt keeps ls tours, "
             "final carries transopt's cycles and ls's activities, answer = projection of final", "6-C16"),
     "C17": ("Net.tla!NetObsOK: every public Network getter (nodes, limits, depots, can_reach matrix, successors / "
@@ -29,11 +40,7 @@ CHECKS = {
 
 NOT_YET = {
     "C08": "check under construction in this session (local-search trajectory validation)",
-    "C09": "check under construction in this session (schedule walks)",
-    "C10": "check under construction in this session (schedule walks)",
     "C11": "check under construction in this session (neighbourhood candidates)",
-    "C12": "check under construction in this session (tour edit semantics)",
-    "C13": "check under construction in this session (modification contracts)",
     "C14": "check under construction in this session (covering circulation)",
     "C15": "check under construction in this session (rotation bookkeeping)",
     "C18": "check under construction in this session (HTTP service)",
